@@ -80,12 +80,20 @@ func Generate(rng *rand.Rand, i int, thorough bool) *p2prig.Scenario {
 		}
 		// every third time the forbidden header sits exactly at a checkpoint height (it is both forbidden and a checkpoint
 		// mismatch: its sender is banned all the same)
-		if !ns.OrphanForbidden && ns.Cap == 0 && rng.Intn(3) == 0 {
+		// ... and every third time right behind one, in a message that carries the (matching) checkpoint header as well - the
+		// node answers beyond the stop hash: the batch is abandoned directly after its checkpoint header was stored
+		if at := rng.Intn(3); !ns.OrphanForbidden && ns.Cap == 0 && at < 2 {
 			for _, cp := range s.CheckpointHeights {
 				if int(cp) >= 2 && int(cp) <= s.HonestLen-14 {
-					ns.ForbiddenAt = int(cp)
+					ns.ForbiddenAt = int(cp) + at
+					if at == 1 {
+						ns.IgnoreStop = true
+					}
 					if s.InitialStore == "prefix" {
-						s.PrefixLen = ns.ForbiddenAt - 1
+						s.PrefixLen = ns.ForbiddenAt - 1 - at*(1+rng.Intn(2))
+						if s.PrefixLen < 1 {
+							s.PrefixLen = 1
+						}
 					}
 					break
 				}
